@@ -34,9 +34,9 @@ func init() {
 }
 
 type readerAnchors struct {
-	fn                      *ssa.Function
-	buf, curr, maxF, pkData *types.Var
-	read, parse             *types.Func
+	fn                              *ssa.Function
+	buf, curr, maxF, pkData, frData *types.Var
+	read, parse                     *types.Func
 }
 
 func readerA(c *an.Ctx) readerAnchors {
@@ -47,6 +47,7 @@ func readerA(c *an.Ctx) readerAnchors {
 		curr:   a.field("drpcwire", "Reader", "curr"),
 		maxF:   a.field("drpcwire", "ReaderOptions", "MaximumBufferSize"),
 		pkData: a.field("drpcwire", "Packet", "Data"),
+		frData: a.field("drpcwire", "Frame", "Data"),
 		read:   a.obj("drpcwire", "(*Reader).read"),
 		parse:  a.obj("drpcwire", "ParseFrame"),
 	}
@@ -108,19 +109,40 @@ func has(fields []*types.Var, f *types.Var) bool {
 	return false
 }
 
-func c09r1(c *an.Ctx) {
-	ra := readerA(c)
+// readerSizeFlow is the typestate both size rules read:
+//
+//	"sized"    the unparsed buffer passed the limit test since it was last (re)filled;
+//	"grown"    pkt.Data was appended to and that size has not been compared with the limit;
+//	"presized" len(pkt.Data)+len(fr.Data) passed the limit test and pkt.Data has not been touched since: the append of
+//	           exactly fr.Data that follows produces a packet of the tested size, so it does not make the packet "grown";
+//	"stale"    a passed pre-append test was invalidated by a store to the packet (the new-id discard) before the append.
+func readerSizeFlow(ra readerAnchors) *an.Flow {
 	fn := ra.fn
-	// typestate: "sized" = the unparsed buffer passed the limit test since it was last (re)filled;
-	//            "grown" = pkt.Data was appended to and not yet tested.
-	flow := &an.Flow{Fn: fn, Inline: an.InlineSamePackage(fn), Init: []string{""},
+	isPktAlloc := func(v ssa.Value) bool {
+		al, ok := v.(*ssa.Alloc)
+		if !ok {
+			return false
+		}
+		n, isN := deref(al.Type()).(*types.Named)
+		return isN && n.Obj().Name() == "Packet"
+	}
+	return &an.Flow{Fn: fn, Inline: an.InlineSamePackage(fn), Init: []string{""},
 		Step: func(st string, in ssa.Instruction) []string {
 			switch x := in.(type) {
 			case *ssa.Call:
 				if an.IsCallTo(x.Common(), ra.read) {
 					return []string{delTag(st, "sized")}
 				}
+				if an.IsCallTo(x.Common(), ra.parse) {
+					return []string{delTag(delTag(st, "presized"), "stale")}
+				}
 			case *ssa.Store:
+				if isPktAlloc(x.Addr) {
+					if hasTag(st, "presized") {
+						return []string{addTag(delTag(st, "presized"), "stale")}
+					}
+					return nil
+				}
 				fv := an.PathOf(x.Addr).Last()
 				if fv == nil {
 					return nil
@@ -141,8 +163,15 @@ func c09r1(c *an.Ctx) {
 				case ra.pkData.Origin():
 					if call, ok := x.Val.(*ssa.Call); ok {
 						if bi, isB := call.Common().Value.(*ssa.Builtin); isB && bi.Name() == "append" {
-							return []string{addTag(st, "grown")}
+							args := call.Common().Args
+							if hasTag(st, "presized") && len(args) == 2 && isLoadOfField(args[0], ra.pkData) && isLoadOfField(args[1], ra.frData) {
+								return []string{delTag(st, "presized")}
+							}
+							return []string{addTag(delTag(st, "presized"), "grown")}
 						}
+					}
+					if hasTag(st, "presized") {
+						return []string{addTag(delTag(st, "presized"), "stale")}
 					}
 				}
 			}
@@ -161,11 +190,22 @@ func c09r1(c *an.Ctx) {
 				st = addTag(st, "sized")
 			}
 			if has(fields, ra.pkData) {
-				st = delTag(st, "grown")
+				switch {
+				case len(fields) == 1:
+					st = delTag(st, "grown")
+				case len(fields) == 2 && has(fields, ra.frData) && !hasTag(st, "grown"):
+					st = addTag(st, "presized")
+				}
 			}
 			return st, true
 		},
 	}
+}
+
+func c09r1(c *an.Ctx) {
+	ra := readerA(c)
+	fn := ra.fn
+	flow := readerSizeFlow(ra)
 	res := flow.Run()
 	nRead := 0
 	for _, cs := range an.CallsTo(fn, false, ra.read) {
@@ -222,21 +262,87 @@ func c09r1(c *an.Ctx) {
 		}
 		nGrow++
 		okLen := isLenOfField(mk.Len, ra.buf)
-		okCap := false
-		if add, isAdd := mk.Cap.(*ssa.BinOp); isAdd && add.Op == token.ADD {
-			if _, isC := an.ConstInt(add.Y); isC {
-				if mul, isMul := add.X.(*ssa.BinOp); isMul && mul.Op == token.MUL {
-					k, isK := an.ConstInt(mul.X)
-					if isK && k >= 1 && k <= 4 && isCapOfField(mul.Y, ra.buf) {
-						okCap = true
+		// the new capacity is a bounded function of bounded quantities: the buffer's own capacity and length (bounded
+		// where the growth is guarded, see below), the configured maximum and constants, combined by +, -, a small
+		// constant factor, min/max and merges
+		var bounded func(v ssa.Value, depth int) bool
+		bounded = func(v ssa.Value, depth int) bool {
+			if depth > 8 {
+				return false
+			}
+			if _, isC := an.ConstInt(v); isC {
+				return true
+			}
+			if isCapOfField(v, ra.buf) || isLenOfField(v, ra.buf) || isLoadOfField(v, ra.maxF) {
+				return true
+			}
+			switch x := v.(type) {
+			case *ssa.Convert:
+				return bounded(x.X, depth+1)
+			case *ssa.Phi:
+				for _, e := range x.Edges {
+					if !bounded(e, depth+1) {
+						return false
 					}
-					k2, isK2 := an.ConstInt(mul.Y)
-					if isK2 && k2 >= 1 && k2 <= 4 && isCapOfField(mul.X, ra.buf) {
-						okCap = true
+				}
+				return true
+			case *ssa.BinOp:
+				switch x.Op {
+				case token.ADD, token.SUB:
+					return bounded(x.X, depth+1) && bounded(x.Y, depth+1)
+				case token.MUL:
+					if k, isK := an.ConstInt(x.X); isK && k >= 1 && k <= 4 {
+						return bounded(x.Y, depth+1)
 					}
+					if k, isK := an.ConstInt(x.Y); isK && k >= 1 && k <= 4 {
+						return bounded(x.X, depth+1)
+					}
+				}
+			case *ssa.Call:
+				if b, isB := x.Common().Value.(*ssa.Builtin); isB && (b.Name() == "min" || b.Name() == "max") {
+					for _, a := range x.Common().Args {
+						if !bounded(a, depth+1) {
+							return false
+						}
+					}
+					return true
+				}
+			}
+			return false
+		}
+		okCap := bounded(mk.Cap, 0)
+		// and it grows only when the free space is short, so that the capacity it starts from is bounded by the length
+		okGuard := false
+		for _, g := range an.GuardsOf(mk.Block()) {
+			if cmp, isCmp := an.CmpOf(g); isCmp {
+				mentionsCap, mentionsLen := false, false
+				var scan func(v ssa.Value, depth int)
+				scan = func(v ssa.Value, depth int) {
+					if depth > 4 {
+						return
+					}
+					if isCapOfField(v, ra.buf) {
+						mentionsCap = true
+					}
+					if isLenOfField(v, ra.buf) {
+						mentionsLen = true
+					}
+					switch x := v.(type) {
+					case *ssa.BinOp:
+						scan(x.X, depth+1)
+						scan(x.Y, depth+1)
+					case *ssa.Convert:
+						scan(x.X, depth+1)
+					}
+				}
+				scan(cmp.X, 0)
+				scan(cmp.Y, 0)
+				if mentionsCap && mentionsLen {
+					okGuard = true
 				}
 			}
 		}
+		c.Check(okGuard, "ReadPacketUsing | read buffer grows only when its free space is short", c.At(in), "", "the read buffer is re-allocated without comparing its capacity with its length: it grows on every read")
 		c.Check(okLen && okCap, "ReadPacketUsing | read buffer grows to len(r.buf), k*cap(r.buf)+const only", c.At(in), "", "the read buffer is re-allocated with a size not derived from its own capacity: "+an.R(mk.Len)+", "+an.R(mk.Cap))
 	})
 	c.Floor("read buffer growth sites", 1, nGrow)
@@ -413,44 +519,63 @@ func c09r3(c *an.Ctx) {
 func c09r4(c *an.Ctx) {
 	ra := readerA(c)
 	fn := ra.fn
-	flow := &an.Flow{Fn: fn, Inline: an.InlineSamePackage(fn), Init: []string{""}, Step: func(st string, in ssa.Instruction) []string {
-		switch x := in.(type) {
-		case *ssa.Call:
-			if an.IsCallTo(x.Common(), ra.parse) {
-				return []string{""}
-			}
-		case *ssa.Store:
-			if fv := an.PathOf(x.Addr).Last(); fv != nil && fv.Origin() == ra.pkData.Origin() {
-				if call, ok := x.Val.(*ssa.Call); ok {
-					if bi, isB := call.Common().Value.(*ssa.Builtin); isB && bi.Name() == "append" {
-						return []string{"appended"}
-					}
-				}
-			}
-		}
-		return nil
-	}}
-	res := flow.Run()
+	res := readerSizeFlow(ra).Run()
 	n := 0
 	an.Instrs(fn, func(in ssa.Instruction) {
-		br, ok := in.(*ssa.If)
-		if !ok {
-			return
-		}
-		fields, _, ok := ra.limitTest(br.Cond)
-		if !ok || !has(fields, ra.pkData) {
-			return
-		}
-		n++
-		okAfter := true
-		for _, st := range res.Before(in) {
-			if st != "appended" {
-				okAfter = false
+		switch x := in.(type) {
+		case *ssa.If:
+			fields, _, ok := ra.limitTest(x.Cond)
+			if !ok || !has(fields, ra.pkData) || !res.Reachable(in.Block()) {
+				return
 			}
+			n++
+			// what is compared with the limit is the size of the current packet: its data after the append, or its
+			// data before plus exactly the frame that is appended next
+			switch {
+			case len(fields) == 1:
+				okAfter := true
+				for _, st := range res.Before(in) {
+					if !hasTag(st, "grown") {
+						okAfter = false
+					}
+				}
+				c.Check(okAfter, "ReadPacketUsing | per-packet limit evaluated after the discard and the append", c.At(in), "",
+					"the packet-size test runs before the new-id discard / append: bytes of an unfinished packet that is about to be discarded count against the packet that replaces it (a legal packet is rejected)")
+				c.Ok("ReadPacketUsing | per-packet limit measures len(pkt.Data) alone", c.At(in), "")
+			case len(fields) == 2 && has(fields, ra.frData):
+				okBefore := true
+				for _, st := range res.Before(in) {
+					if hasTag(st, "grown") {
+						okBefore = false
+					}
+				}
+				c.Check(okBefore, "ReadPacketUsing | per-packet limit evaluated after the discard and the append", c.At(in), "len(pkt.Data)+len(fr.Data) before appending exactly fr.Data",
+					"the packet-size test adds the frame's length to a packet the frame was already appended to")
+				c.Ok("ReadPacketUsing | per-packet limit measures len(pkt.Data) alone", c.At(in), "the packet's length plus the frame about to be appended")
+			default:
+				c.Bad("ReadPacketUsing | per-packet limit measures len(pkt.Data) alone", c.At(in), fmt.Sprintf("the packet-size test sums %d lengths", len(fields)))
+			}
+		case *ssa.Store:
+			// a pre-append test must still describe the packet when the append happens
+			if fv := an.PathOf(x.Addr).Last(); fv == nil || fv.Origin() != ra.pkData.Origin() {
+				return
+			}
+			call, ok := x.Val.(*ssa.Call)
+			if !ok {
+				return
+			}
+			if bi, isB := call.Common().Value.(*ssa.Builtin); !isB || bi.Name() != "append" {
+				return
+			}
+			stale := false
+			for _, st := range res.Before(in) {
+				if hasTag(st, "stale") {
+					stale = true
+				}
+			}
+			c.Check(!stale, "ReadPacketUsing | the size tested before an append is the size appended to", c.At(in), "",
+				"the packet-size test ran before the new-id discard: bytes of an unfinished packet that is about to be discarded count against the packet that replaces it (a legal packet is rejected)")
 		}
-		c.Check(okAfter, "ReadPacketUsing | per-packet limit evaluated after the discard and the append", c.At(in), "",
-			"the packet-size test runs before the new-id discard / append: bytes of an unfinished packet that is about to be discarded count against the packet that replaces it (a legal packet is rejected)")
-		c.Check(len(fields) == 1, "ReadPacketUsing | per-packet limit measures len(pkt.Data) alone", c.At(in), "", fmt.Sprintf("the packet-size test sums %d lengths", len(fields)))
 	})
 	c.Floor("per-packet size tests", 1, n)
 }
